@@ -23,6 +23,7 @@ type Op struct {
 	W       int    `json:"w,omitempty"`          // watch id (watch / cancel)
 	Consume string `json:"consume,omitempty"`    // eager, never, every:N
 	Ms      int64  `json:"ms,omitempty"`         // sleep
+	Lease   int64  `json:"lease,omitempty"`      // lease field of a create / update request (seconds)
 	Timeout int64  `json:"timeout_ms,omitempty"` // deadline of the request context (simulated ms), 0 = none
 	Node    int    `json:"node,omitempty"`
 	API     string `json:"api,omitempty"` // "", etcd, brain
